@@ -40,6 +40,9 @@ Oracle (one clause per sentence of the statement):
 Because garbage must leave canon unchanged, BFS alone would never extend a history *through* garbage; the clause "without
 disturbing the delivery of any other datagram" is therefore checked directly by the interleaving sweep: for every garbage
 event g and every valid event v enabled in a base state (one circuit open / all four open): [g, v] and [v, g, v].
+Repeated garbage ([g, g], [g, g, g], [g, v, g], [g, g, v] for every garbage kind, each of the 18 banned names individually)
+and flood scenarios (k in {1, 8, 31, 32, 33, 64, 300} distinct unregistered far addresses / unknown source hosts / truncated
+datagrams, then valid traffic on every open circuit) cover state the proxy might keep *about* garbage (memo sets, bounded maps).
 Separate exhaustive sweeps: SOCKS framing law (emit vs. reference strip, reference emit vs. parse, emit vs. parse) over
 addresses x ports x payload lengths {0,1,1200}; every template in both directions through one open circuit (value rows of
 hmc.msggen; banned templates inbound must be discarded).
@@ -317,7 +320,16 @@ class Harness:
         elif k == "g_unknown_in":
             sim(struct.pack(">BIB", 0, GARBAGE_PID, 0) + unknown_msg_number() + b"\x01\x02\x03\x04", U.SIMS[ev[2]])
         elif k == "g_banned_in":
-            sim(_template_msg("TeleportFinish", GARBAGE_PID, 0x40), U.SIMS[ev[2]])
+            sim(_template_msg(ev[3] if len(ev) > 3 else "TeleportFinish", GARBAGE_PID, 0x40), U.SIMS[ev[2]])
+        elif k == "g_flood":   # ("g_flood", i, family, n): the n-th of many distinct pieces of garbage
+            fam, n = ev[2], ev[3]
+            if fam == "far":        # a well-formed datagram to yet another unregistered far address
+                viewer(_chat_out(i, GARBAGE_PID, 0), (U.IP, 20000 + n))
+            elif fam == "src":      # yet another unknown host talking to the association
+                sim(_chat_in(i, GARBAGE_PID, 0x40), (U.FOREIGN_HOST[0], 20000 + n))
+            else:                   # truncated SOCKS datagrams
+                viewer(_chat_out(i, GARBAGE_PID, 0), U.SIMS[0])
+                d["data"] = d["data"][:(0, 3, 7, 9)[n % 4]]
         elif k == "g_tbody_in":
             if ev[3] == "inspected":
                 sim(_chat_in(i, GARBAGE_PID, 0)[:-3], U.SIMS[ev[2]])
@@ -418,6 +430,8 @@ def garbage_site(ev) -> str:
         extra.append(f"len{ev[2]}")
     if k == "g_pre_in":
         extra.append(f"pid{ev[3]:#x}")
+    if k == "g_flood":
+        extra.append("first" if ev[3] == 0 else "later")
     return ":".join(["garbage", k] + extra)
 
 
@@ -591,6 +605,14 @@ def _types_worker(item):
     return part.dump()
 
 
+def _is_enabled(h, w, ev) -> bool:
+    if ev[0] == "g_flood":
+        return True
+    if ev[0] == "g_banned_in" and len(ev) == 4:
+        return ev[:3] in h.enabled(w)
+    return ev in h.enabled(w)
+
+
 def _interleave_worker(item):
     base, hist = item
     part = Part()
@@ -600,7 +622,7 @@ def _interleave_worker(item):
     w = h.fresh()
     viols = list(w.violations)
     for ev in hist:
-        if ev not in h.enabled(w):  # e.g. "no circuit yet" garbage after the valid event opened that circuit
+        if not _is_enabled(h, w, ev):  # e.g. "no circuit yet" garbage after the valid event opened that circuit
             part.count("interleavings_not_enabled")
             return part.dump()
         w.violations = []
@@ -624,6 +646,44 @@ def reopen_scenarios():
                         (kill, i, j), ("U", i, j), ("sr", i, j), ("vr", i, j))
                 yield ("empty", tail)
                 yield ("empty", (("U", 1 - i, j),) + tail + (("vo", 1 - i, j), ("so", 1 - i, j)))
+
+
+FLOOD_K = (1, 8, 31, 32, 33, 64, 300)
+
+
+def flood_scenarios(quick: bool):
+    """k distinct pieces of garbage on one association (k distinct unregistered far addresses / k distinct unknown
+    source hosts / k truncated datagrams), then one valid datagram of every kind on every open circuit of *both*
+    associations.  Not BFS: the point is volume (anything that remembers, caches or bounds what it has seen)."""
+    for base, assocs in (("one-open", (0,)), ("all-open", (0, 1))):
+        hb = Harness(2, base)
+        m = hb.fresh().model
+        # simulator datagrams first: a viewer datagram to the same simulator would re-teach the proxy that address
+        tail = tuple(ev for kind in ("so", "sr", "vo", "vr") for ev in hb.valid_events(m) if ev[0] == kind)
+        for i in assocs:
+            for fam in ("far", "src", "trunc"):
+                for k in FLOOD_K:
+                    if quick and k == 300 and fam != "far":
+                        continue
+                    yield (base, tuple(("g_flood", i, fam, n) for n in range(k)) + tail)
+
+
+def repeated_garbage(base: str):
+    """[g, g], [g, v, g], [g, g, v] for every garbage kind g (every UDP-banned name individually): each occurrence must
+    be discarded -- 'the first one was rejected' must not teach the proxy anything."""
+    h = Harness(2, base)
+    m = h.fresh().model
+    gs = list(h.garbage_events(m))
+    for (i, j) in sorted(m.open):
+        gs += [("g_banned_in", i, j, name) for name in _BANNED]
+    vs = h.valid_events(m)
+    for g_ev in gs:
+        yield (base, (g_ev, g_ev))
+        yield (base, (g_ev, g_ev, g_ev))
+        for v in vs:
+            if v[1] == g_ev[1] and v[0] in ("vo", "sr"):
+                yield (base, (g_ev, v, g_ev))
+                yield (base, (g_ev, g_ev, v))
 
 
 def interleavings(base: str):
@@ -695,6 +755,10 @@ def run(run: Run):
     if quick:
         items = [it for it in items if len(it[1]) == 2 or it[0] == "one-open"]
     items += list(reopen_scenarios())
+    items += list(repeated_garbage("one-open")) + list(repeated_garbage("all-open"))
+    n_il = len(items)
+    items += list(flood_scenarios(quick))
+    run.coverage_extra.update(flood_scenarios=len(items) - n_il)
     for d in pmap(_interleave_worker, items, run.jobs):
         run.merge(d)
     # 3. framing law
